@@ -184,3 +184,34 @@ func TestTablePairsRun(t *testing.T) {
 	pk.Exhaustive("pairs-accepted-run")
 	col.Done(t)
 }
+
+// The hand-written snippets of verif/pairs (C04 compares the backends on them): here every accepted one must run
+// to a well-formed outcome on each backend.
+func TestTableSnippetsRun(t *testing.T) {
+	pk.SkipIfReplay(t)
+	col := pk.NewCollector()
+	for k, body := range pairs.Snippets {
+		if !pk.Mine(k) {
+			continue
+		}
+		text := "fn main() {\n    " + body + "\n}\n"
+		c := Case{ProgCase: px.ProgCase{Modules: map[string]string{"main": text}, Entry: "main", Limits: sb.DefaultLimits(), Note: fmt.Sprintf("snippet %d", k)}}
+		pk.Eval()
+		resp := px.Pool().Exec(&sb.Request{Op: "analyze", Modules: c.Modules, Entry: "main"})
+		if resp == nil || !resp.Accepted {
+			continue
+		}
+		pk.NonTrivial(body, map[string]any{"snippet": body})
+		for _, b := range []string{"vm", "tree"} {
+			cb := c
+			cb.Backends = []string{b}
+			f := checkRobust(cb)
+			if f != nil {
+				f.Sig = fmt.Sprintf("%s [snippet %d: %.40s]", f.Sig, k, body)
+			}
+			col.Report(cb, f)
+		}
+	}
+	pk.Exhaustive("snippets-run")
+	col.Done(t)
+}
